@@ -68,6 +68,9 @@ func checkC08(r *Run) propMeta {
 			}
 		}
 	}
+	checkStackPrimitives(r)
+	checkChildAccessorsGuarded(r)
+	r.Floor("C08-R9-stack-primitive-total", 2)
 	r.Floor("C08-R1-push-pop", 80)
 
 	// ---- R2 root pushed before the walk ----------------------------------------------------
